@@ -256,7 +256,7 @@ def run(prop, tier, seed, known):
         # ---- interpolate_intervals / intervals_to_samples
         t0 = time.time()
         fails, n = [], 0
-        for iv in anns:
+        for iv in anns + [[[0.0, 1.0], [1.0, 2.0], [4.0, 6.0]], [[1.0, 3.0], [5.0, 6.0]]]:
             if not iv:
                 continue
             labels = ['L%d' % k for k in range(len(iv))]
@@ -288,6 +288,25 @@ def run(prop, tier, seed, known):
                     want_l.append(cands[-1] if cands else 'F')
                 if labs != want_l:
                     fails.append('intervals_to_samples(%s, size=%s, offset=%s) labels %s, expected %s' % (iv, size, offset, labs, want_l))
+            if all(float(v).is_integer() for r_ in iv for v in r_):
+                # integer-typed interval arrays (e.g. boundaries_to_intervals(np.arange(n))) with fractional sample times
+                iarr = np.array(iv, dtype=int)
+                pts = [p_ + 0.5 for p_ in range(-1, int(iarr.max()) + 2)]
+                n += 1
+                got = util.interpolate_intervals(iarr, labels, pts, fill_value='F')
+                want = []
+                for t in pts:
+                    cands = [l for (s, e), l in zip(iv, labels) if s <= t <= e]
+                    want.append(cands[-1] if cands else 'F')
+                if got != want:
+                    fails.append('interpolate_intervals(integer array %s, %s) = %s, expected %s' % (iv, pts, got, want))
+                times, labs = util.intervals_to_samples(iarr, labels, offset=0.5, sample_size=1.0, fill_value='F')
+                want_l = []
+                for t in times:
+                    cands = [l for (s, e), l in zip(iv, labels) if s <= t <= e]
+                    want_l.append(cands[-1] if cands else 'F')
+                if labs != want_l or times != [i + 0.5 for i in range(int(iarr.max()))]:
+                    fails.append('intervals_to_samples(integer array %s, offset 0.5) = %s %s, expected labels %s' % (iv, times, labs, want_l))
             try:
                 util.interpolate_intervals(np.array(iv), labels, [1.0, 0.5])
                 fails.append('interpolate_intervals accepted decreasing time points')
